@@ -102,7 +102,10 @@ FUNCS = {
     "Erfcx": (st.one_of(st.floats(-26, 30), logpos(-40, 7), around([0.0, 8.0, 26.0, 27.0])).map(lambda x: ([x], [])),
               lambda a, i: mp.exp(a[0] * a[0]) * mp.erfc(a[0]), 64),
     "GammaPsecondDerivative": (gamma_args().filter(lambda t: t[0][1] > 0), lambda a, i: mp.exp(-a[1] + (a[0] - 1) * mp.log(a[1]) - mp.loggamma(a[0])) * ((a[0] - 1) / a[1] - 1), 256),
-    "BesselI": (bessel_args(), lambda a, i: mp.besseli(a[0], a[1]), 256),
+    "BesselI": (st.one_of(bessel_args(), bessel_args(), bessel_args(),
+                          # negative arguments are in the domain for integer orders: I_n(-x) = (-1)^n I_n(x)
+                          st.tuples(st.integers(0, 40).map(float), st.one_of(st.floats(0.01, 60), logpos(-20, 5))).map(lambda t: ([t[0], -t[1]], []))),
+                lambda a, i: mp.besseli(a[0], a[1]).real, 256),
     "LogBesselI": (bessel_args(), lambda a, i: mp.log(mp.besseli(a[0], a[1])), 256),
     "GammaP": (gamma_args(), lambda a, i: mp.gammainc(a[0], 0, a[1], regularized=True), 256),
     "GammaQ": (gamma_args(), lambda a, i: mp.gammainc(a[0], a[1], mp.inf, regularized=True), 256),
